@@ -60,7 +60,7 @@ func genRetentionHistory(r *rand.Rand) *plan.Plan {
 	H := []int{1, 6, 24, 72}[r.IntN(4)]
 	p.Params["retention_hours"] = H
 	now := int64(simEpochMs) + 2000
-	inc := plan.Incarnation{Boot: "full", SchedSeed: r.Uint64() | 1}
+	inc := plan.Incarnation{Boot: "full", SchedSeed: r.Uint64()>>11 | 1}
 	nIdx := 1 + r.IntN(2)
 	names := []string{"ra", "rb"}[:nIdx]
 	nseg := 2 + r.IntN(5)
@@ -119,7 +119,7 @@ func genRetentionHistory(r *rand.Rand) *plan.Plan {
 	}
 	inc.Ops = append(inc.Ops, plan.Op{Kind: "retention", Args: map[string]any{"hours": H}})
 	inc.Ops = append(inc.Ops, queries()...)
-	inc1 := plan.Incarnation{Boot: "full", SchedSeed: r.Uint64() | 1}
+	inc1 := plan.Incarnation{Boot: "full", SchedSeed: r.Uint64()>>11 | 1}
 	inc1.Ops = append(inc1.Ops, queries()...)
 	inc1.Ops = append(inc1.Ops, plan.Op{Kind: "retention", Args: map[string]any{"hours": H}})
 	inc1.Ops = append(inc1.Ops, queries()...)
